@@ -5,6 +5,7 @@ package quic_test
 // of client datagrams; the wire observer evaluates the 3x bound before every server datagram.
 
 import (
+	"os"
 	"context"
 	"fmt"
 	"testing"
@@ -74,8 +75,33 @@ func TestVerifC14Wire(t *testing.T) {
 			}
 		}
 	}
+	// seeded schedules of 1..4 faults of any kind on the client's first datagrams (what the server has received
+	// decides what it may send), certificate chains of every length, both directions' losses for the rest
+	rng := l.Rand("c14wire")
+	cls := []string{"plain", "unil", "Chrome_115_IPv4", "Firefox_116A", "Chrome_146_IPv4", "Firefox_116C"}
+	for i := 0; i < l.Pick(600, 30000); i++ {
+		var fs []simworld.Fault
+		for k := 1 + rng.IntN(4); k > 0; k-- {
+			a := acts[rng.IntN(len(acts))]
+			if rng.IntN(4) == 0 {
+				a = simworld.Action{Kind: "delay", Delay: time.Duration(1+rng.IntN(400)) * time.Millisecond}
+			}
+			d := wiretap.C2S
+			if rng.IntN(4) == 0 {
+				d = wiretap.S2C
+			}
+			fs = append(fs, simworld.Fault{Dir: d, Ordinal: rng.IntN(12), Action: a})
+		}
+		cl, chain, retry := cls[rng.IntN(len(cls))], rng.IntN(17), rng.IntN(5) == 0
+		cases = append(cases, &quicworld.ConnCase{Name: fmt.Sprintf("rand/%05d/%s/chain%d/retry=%v", i, cl, chain, retry), Client: cl, Retry: retry, CertChain: chain,
+			Schedule: simworld.Schedule{Faults: fs}, Transfer: quicworld.Scenario("S1", uint64(idx)), ConnIdx: idx, RTTms: []int{10, 10, 40, 200}[rng.IntN(4)]})
+		idx++
+	}
 	quicworld.RunSuite(t, l, cases, func(c *evlog.Case, cc *quicworld.ConnCase, r *quicworld.CaseResult) {
 		var checks, crossing int64
+		if os.Getenv("VERIF_TRACE") != "" {
+			fmt.Printf("TRACE dial=%v accept=%v\n", r.DialErr, r.AcceptErr)
+		}
 		for _, tp := range r.Taps {
 			checks += tp.Counts["c14_amplification_checks"]
 			crossing += tp.Counts["c14_datagrams_crossing_limit"]
